@@ -355,7 +355,8 @@ Qed.
 Section UrlNodes.
 Variable tlds : list bytes.
 
-(* a URL node: is_url accepted the text it covers; the value is that text with its percent encoding normalised *)
+(* a URL node: is_url accepted the text it covers; the value is that text with its percent encoding normalised,
+   and is_url accepted the value as well (the guard added by the fix) *)
 Definition url_node_ok (data : bytes) (n : node) : Prop :=
   n_ty n = URL_TYPE /\ 0 <= n_st n /\ n_st n <= n_en n /\ n_en n <= blen data /\
   let text := slice data (n_st n) (n_en n) in
@@ -364,6 +365,7 @@ Definition url_node_ok (data : bytes) (n : node) : Prop :=
   n_val n = fst (normalize_percent_encoding text) /\
   n_obf n = snd (normalize_percent_encoding text) /\
   (n_obf n = PERCENT_OBF <-> blen (n_val n) < blen text) /\
+  is_url (n_val n) = Ok true /\
   parse_url tlds (n_val n) = Ok (n_kids n).
 
 Lemma find_urls_one_some data mt n : span_ok data mt ->
@@ -376,12 +378,14 @@ Proof.
   destruct (is_url grp) as [ok| |] eqn:Eu; cbn [bind]; try discriminate.
   destruct ok; cbn [negb]; [|discriminate].
   destruct (normalize_percent_encoding grp) as [value obf] eqn:En.
+  destruct (is_url value) as [ok2| |] eqn:Eu2; cbn [bind]; try discriminate.
+  destruct ok2; cbn [negb]; [|discriminate].
   destruct (parse_url tlds value) as [kids| |] eqn:Ep; cbn [bind]; try discriminate.
   intros H. injection H as <-. unfold url_node_ok. cbn [n_ty n_st n_en n_val n_obf n_kids].
   rewrite <- Hgrp. split; [reflexivity|]. split; [lia|]. split; [lia|]. split; [lia|].
   split; [exact Eu|]. split.
   { destruct (is_url_true _ Eu) as [sp [h [A [B [C [D _]]]]]]. exists sp, h. auto. }
-  rewrite En. cbn [fst snd]. split; [reflexivity|]. split; [reflexivity|]. split; [|exact Ep].
+  rewrite En. cbn [fst snd]. split; [reflexivity|]. split; [reflexivity|]. split; [|split; [exact Eu2|exact Ep]].
   pose proof (normalize_percent_label_iff grp) as Hiff. rewrite En in Hiff. exact Hiff.
 Qed.
 
@@ -408,8 +412,8 @@ Qed.
 Section Authority.
 Variable tlds : list bytes.
 
-Lemma auth_host_nodes_cases h off :
-  (exists l, auth_host_nodes tlds h off = Ok l) \/ auth_host_nodes tlds h off = Raise value_error.
+Lemma auth_host_nodes_cases h off hl :
+  (exists l, auth_host_nodes tlds h off hl = Ok l) \/ auth_host_nodes tlds h off hl = Raise value_error.
 Proof.
   unfold auth_host_nodes. destruct (startswith h [b_lbr]).
   - destruct (negb (endswith h [b_rbr])); [right; reflexivity|].
@@ -421,9 +425,9 @@ Theorem parse_authority_cases a :
   (exists l, parse_authority tlds a = Ok l) \/ parse_authority tlds a = Raise value_error.
 Proof.
   unfold parse_authority. destruct (auth_split a) as [[[userinfo username] password] host].
-  destruct (auth_user_nodes username password) as [out2 offset2].
+  destruct (auth_user_nodes userinfo username password) as [out2 offset2].
   destruct (negb (nonempty host)); [left; eexists; reflexivity|].
-  destruct (auth_host_nodes_cases (Percent.unquote_to_bytes host) (if nonempty userinfo then offset2 + 1 else offset2))
+  destruct (auth_host_nodes_cases (Percent.unquote_to_bytes host) (if has_byte b_at a then offset2 + 1 else offset2) (blen host))
     as [[l ->] | ->]; cbn [bind]; [left; eexists; reflexivity|right; reflexivity].
 Qed.
 
@@ -459,56 +463,35 @@ Proof.
 Qed.
 
 (* ---------- totality of find_urls ---------- *)
-(* No IndexError (the data[start - 1] access), no other exception class, no fuel: the only way find_urls_post
-   fails is the ValueError that urlsplit raises on the NORMALISED value although it accepted the raw text
-   (see the Example find_urls_raises below: a real defect). *)
-Theorem find_urls_post_raises data ms e : ms_ok data ms ->
-  find_urls_post tlds data ms = Raise e -> is_value_error e = true.
+(* No IndexError (the data[start - 1] access), no ValueError from parse_url (the normalised value passed is_url,
+   so urlsplit accepts it, and parse_url fails only when urlsplit does), no fuel. *)
+Lemma find_urls_one_ok data mt : span_ok data mt -> exists o, find_urls_one tlds data mt = Ok o.
 Proof.
-  intros Hms H. unfold find_urls_post in H. apply collect_raise in H. destruct H as [mt [Hin H]].
-  unfold ms_ok in Hms. rewrite Forall_forall in Hms. specialize (Hms mt Hin).
-  destruct (span_ok_group data mt Hms) as [Hg [H0 [H1 [H2 Hl]]]].
-  revert H. unfold find_urls_one.
-  destruct (getitem_ok data (m_start mt 0 - 1)) as [prev ->]; [lia|]. cbn [bind].
-  destruct (url_context_cut _ _ _ _ prev) as [grp en].
-  destruct (is_url_total grp) as [ok ->]. cbn [bind]. destruct ok; cbn [negb]; [|discriminate].
-  destruct (normalize_percent_encoding grp) as [value obf].
-  destruct (parse_url tlds value) as [kids| e'|] eqn:Ep; cbn [bind]; try discriminate.
-  intros H. injection H as ->. apply parse_url_raises in Ep. apply (urlsplit_raises _ _ Ep).
-Qed.
-
-Theorem find_urls_post_no_hang data ms : ms_ok data ms -> find_urls_post tlds data ms <> Hang.
-Proof.
-  intros Hms H. unfold find_urls_post in H. apply collect_hang in H. destruct H as [mt [Hin H]].
-  unfold ms_ok in Hms. rewrite Forall_forall in Hms. specialize (Hms mt Hin).
-  destruct (span_ok_group data mt Hms) as [Hg [H0 [H1 [H2 Hl]]]].
-  revert H. unfold find_urls_one.
-  destruct (getitem_ok data (m_start mt 0 - 1)) as [prev ->]; [lia|]. cbn [bind].
-  destruct (url_context_cut _ _ _ _ prev) as [grp en].
-  destruct (is_url_total grp) as [ok ->]. cbn [bind]. destruct ok; cbn [negb]; [|discriminate].
-  destruct (normalize_percent_encoding grp) as [value obf].
-  destruct (parse_url tlds value) as [kids| e'|] eqn:Ep; cbn [bind]; try discriminate.
-  elim (parse_url_no_hang _ Ep).
-Qed.
-
-(* when the normalised values split, the decoder returns *)
-Theorem find_urls_post_total data ms : ms_ok data ms ->
-  (forall mt text, In mt ms -> is_url text = Ok true ->
-     exists r, urlsplit (fst (normalize_percent_encoding text)) = Ok r) ->
-  exists out, find_urls_post tlds data ms = Ok out.
-Proof.
-  intros Hms Hsplit. unfold find_urls_post. apply collect_ok. intros mt Hin.
-  unfold ms_ok in Hms. rewrite Forall_forall in Hms.
-  destruct (span_ok_group data mt (Hms mt Hin)) as [Hg [H0 [H1 [H2 Hl]]]].
+  intros Hok. destruct (span_ok_group data mt Hok) as [Hg [H0 [H1 [H2 Hl]]]].
   unfold find_urls_one.
   destruct (getitem_ok data (m_start mt 0 - 1)) as [prev ->]; [lia|]. cbn [bind].
   destruct (url_context_cut _ _ _ _ prev) as [grp en].
-  destruct (is_url_total grp) as [ok Hok]. rewrite Hok. cbn [bind]. destruct ok; cbn [negb]; [|eexists; reflexivity].
-  destruct (normalize_percent_encoding grp) as [value obf] eqn:En.
-  destruct (proj2 (parse_url_ok_iff value)) as [kids ->].
-  { specialize (Hsplit mt grp Hin Hok). rewrite En in Hsplit. exact Hsplit. }
+  destruct (is_url_total grp) as [ok ->]. cbn [bind]. destruct ok; cbn [negb]; [|eexists; reflexivity].
+  destruct (normalize_percent_encoding grp) as [value obf].
+  destruct (is_url_total value) as [ok2 Hok2]. rewrite Hok2. cbn [bind].
+  destruct ok2; cbn [negb]; [|eexists; reflexivity].
+  destruct (is_url_true _ Hok2) as [sp [h [Hsp _]]].
+  destruct (proj2 (parse_url_ok_iff value)) as [kids ->]; [exists sp; exact Hsp|].
   cbn [bind]. eexists; reflexivity.
 Qed.
+
+Theorem find_urls_post_never_raises data ms : ms_ok data ms ->
+  exists out, find_urls_post tlds data ms = Ok out.
+Proof.
+  intros Hms. unfold find_urls_post. apply collect_ok. intros mt Hin.
+  unfold ms_ok in Hms. rewrite Forall_forall in Hms. apply find_urls_one_ok. apply Hms. exact Hin.
+Qed.
+
+Corollary find_urls_post_no_raise data ms e : ms_ok data ms -> find_urls_post tlds data ms <> Raise e.
+Proof. intros Hms H. destruct (find_urls_post_never_raises data ms Hms) as [out E]. congruence. Qed.
+
+Corollary find_urls_post_no_hang data ms : ms_ok data ms -> find_urls_post tlds data ms <> Hang.
+Proof. intros Hms H. destruct (find_urls_post_never_raises data ms Hms) as [out E]. congruence. Qed.
 End Authority.
 
 (* ---------- C12: spans ---------- *)
@@ -643,18 +626,21 @@ Qed.
 Section AuthoritySpans.
 Variable tlds : list bytes.
 
-(* what a child of parse_authority is, relative to the authority text [a] *)
+(* what a child of parse_authority is, relative to the authority text [a]; the host children carry the
+   UNQUOTED host, their span covers the host as written (still escaped) *)
 Inductive auth_child (a username password host : bytes) (n : node) : Prop :=
 | ac_username : n_ty n = USERNAME_TYPE -> covers a n username ->
     n_val n = Percent.unquote_to_bytes username -> n_obf n = [] -> auth_child a username password host n
 | ac_password : n_ty n = PASSWORD_TYPE -> covers a n password ->
     n_val n = Percent.unquote_to_bytes password -> n_obf n = [] -> auth_child a username password host n
 | ac_ip : n_ty n = IP_TYPE -> covers a n host ->
-    parse_ip host = Ok (n_val n, n_obf n, blen host) -> auth_child a username password host n
-| ac_ipv6 inner : n_ty n = IPV6_TYPE -> host = [b_lbr] ++ inner ++ [b_rbr] -> covers a n inner ->
+    parse_ip (Percent.unquote_to_bytes host) = Ok (n_val n, n_obf n, blen (Percent.unquote_to_bytes host)) ->
+    auth_child a username password host n
+| ac_ipv6 inner : n_ty n = IPV6_TYPE -> Percent.unquote_to_bytes host = [b_lbr] ++ inner ++ [b_rbr] -> covers a n inner ->
     parse_ipv6 inner = Ok (Node IPV6_TYPE (n_val n) (n_obf n) 0 (blen inner) []) -> auth_child a username password host n
 | ac_domain : n_ty n = DOMAIN_TYPE -> covers a n host ->
-    n_val n = host -> n_obf n = [] -> is_domain tlds host = true -> auth_child a username password host n.
+    n_val n = Percent.unquote_to_bytes host -> n_obf n = [] -> is_domain tlds (Percent.unquote_to_bytes host) = true ->
+    auth_child a username password host n.
 
 Lemma parse_ipv6_node ip n : parse_ipv6 ip = Ok n -> n = Node IPV6_TYPE (n_val n) (n_obf n) 0 (blen ip) [].
 Proof.
@@ -670,97 +656,133 @@ Proof.
   destruct (parse_ip_canonical _ _ _ _ E) as [_ [_ ->]]. repeat split.
 Qed.
 
-(* The spans are right under exactly these conditions:
-   - an at sign is preceded by a non-empty userinfo       (else the host span starts one byte early),
-   - a colon in the userinfo is followed by a non-empty password (else the host span starts one byte early),
-   - the host contains no percent escape                   (else the host span is too short).
-   Each condition is necessary: see the Examples authority_span_defect_1..3. *)
+(* The only span that can still be wrong is the one of a bracketed (IPv6) host: the code unquotes the host, strips the
+   brackets and gives the node the length of the UNQUOTED inner text, one byte after the host start.  That is right
+   when the opening bracket and the inner text are written literally (the closing bracket may be escaped): *)
+Definition v6_host_literal (host : bytes) : Prop :=
+  forall inner, Percent.unquote_to_bytes host = [b_lbr] ++ inner ++ [b_rbr] -> exists rest, host = [b_lbr] ++ inner ++ rest.
+
+Lemma v6_host_literal_unescaped host : Percent.unquote_to_bytes host = host -> v6_host_literal host.
+Proof. intros E inner H. exists [b_rbr]. rewrite <- H. symmetry. exact E. Qed.
+
+Lemma v6_host_literal_no_bracket host :
+  startswith (Percent.unquote_to_bytes host) [b_lbr] = false -> v6_host_literal host.
+Proof. intros E inner H. rewrite H in E. unfold startswith in E. cbn [app prefixb] in E. rewrite N.eqb_refl in E. discriminate. Qed.
+
+(* the user nodes: no side condition (since the fix the colon is counted whenever the userinfo has one) *)
+Lemma auth_user_nodes_spans a userinfo username password host has_at has_colon port_part out2 offset2 :
+  auth_shape a userinfo username password host has_at has_colon port_part ->
+  auth_user_nodes userinfo username password = (out2, offset2) ->
+  Forall (auth_child a username password host) out2 /\ offset2 = blen userinfo.
+Proof.
+  intros [Ha [Hat [Hat0 [Hu [Hco [Hco0 _]]]]]]. unfold auth_user_nodes.
+  assert (Hhb : has_byte b_colon userinfo = has_colon).
+  { destruct has_colon.
+    - apply has_byte_in. apply Hco. reflexivity.
+    - destruct (has_byte b_colon userinfo) eqn:E; [|reflexivity]. apply has_byte_in in E. apply Hco in E. discriminate. }
+  rewrite Hhb.
+  destruct (nonempty username) eqn:Nu; destruct (nonempty password) eqn:Np; intros H; injection H as <- <-.
+  - assert (Hc : has_colon = true). { destruct has_colon; [reflexivity|]. rewrite Hco0 in Np by reflexivity. discriminate. }
+    assert (Hta : has_at = true). { destruct has_at; [reflexivity|]. rewrite Hat0 in Hu by reflexivity. destruct username; discriminate. }
+    rewrite Hc in Hu |- *. split; [|rewrite Hu, blen_app, blen_cons1; lia].
+    constructor; [|constructor; [|constructor]].
+    + apply ac_username; try reflexivity. cbn [n_st n_en].
+      apply (covers_app a [] username ([b_colon] ++ password ++ [b_at] ++ host ++ port_part)); cbn [n_st n_en]; try reflexivity.
+      rewrite Ha, Hta. unfold at_part. rewrite Hu. cbn [app]. rewrite <- !app_assoc. reflexivity.
+    + apply ac_password; try reflexivity.
+      apply (covers_app a (username ++ [b_colon]) password ([b_at] ++ host ++ port_part)); cbn [n_st n_en].
+      * rewrite Ha, Hta. unfold at_part. rewrite Hu. rewrite <- !app_assoc. reflexivity.
+      * rewrite blen_app. reflexivity.
+      * rewrite blen_app. change (blen [b_colon]) with 1. lia.
+  - apply (proj1 (nonempty_false _)) in Np. subst password.
+    assert (Hta : has_at = true). { destruct has_at; [reflexivity|]. rewrite Hat0 in Hu by reflexivity. destruct username; discriminate. }
+    split.
+    + constructor; [|constructor].
+      apply ac_username; try reflexivity.
+      apply (covers_app a [] username ((if has_colon then [b_colon] else []) ++ [b_at] ++ host ++ port_part)); cbn [n_st n_en]; try reflexivity.
+      rewrite Ha, Hta. unfold at_part. rewrite Hu. destruct has_colon; cbn [app]; rewrite <- !app_assoc; reflexivity.
+    + rewrite Hu. destruct has_colon; rewrite blen_app; [rewrite blen_cons1, blen_nil; lia|rewrite blen_nil; lia].
+  - apply (proj1 (nonempty_false _)) in Nu. subst username.
+    assert (Hc : has_colon = true). { destruct has_colon; [reflexivity|]. rewrite Hco0 in Np by reflexivity. discriminate. }
+    assert (Hta : has_at = true). { destruct has_at; [reflexivity|]. rewrite Hat0 in Hu by reflexivity. rewrite Hc in Hu. discriminate. }
+    rewrite Hc in Hu |- *. cbn [app] in Hu. split; [|rewrite Hu, blen_cons1; lia].
+    constructor; [|constructor].
+    apply ac_password; try reflexivity.
+    apply (covers_app a [b_colon] password ([b_at] ++ host ++ port_part)); cbn [n_st n_en]; try reflexivity.
+    rewrite Ha, Hta. unfold at_part. rewrite Hu. cbn [app]. rewrite <- !app_assoc. reflexivity.
+  - apply (proj1 (nonempty_false _)) in Nu. apply (proj1 (nonempty_false _)) in Np. subst username password.
+    split; [constructor|]. rewrite Hu. destruct has_colon; reflexivity.
+Qed.
+
+(* Since the fixes of the source, the username, password, IPv4 and domain spans are right for EVERY authority:
+   an empty userinfo before the at sign, an empty password after the colon and percent escapes in the host are
+   all accounted for.  The one remaining side condition concerns a bracketed host (v6_host_literal above); it
+   is necessary: see the Example authority_span_defect_v6. *)
 Theorem parse_authority_spans a userinfo username password host kids :
   auth_split a = (userinfo, username, password, host) ->
-  (In b_at a -> userinfo <> []) ->
-  (In b_colon userinfo -> password <> []) ->
-  Percent.unquote_to_bytes host = host ->
+  v6_host_literal host ->
   parse_authority tlds a = Ok kids ->
   Forall (auth_child a username password host) kids.
 Proof.
-  intros Hsplit P1 P2 P3. unfold parse_authority. rewrite Hsplit.
+  intros Hsplit P6. unfold parse_authority. rewrite Hsplit.
   destruct (auth_split_shape _ _ _ _ _ Hsplit) as [has_at [has_colon [port_part Hshape]]].
+  destruct (auth_user_nodes userinfo username password) as [out2 offset2] eqn:Eun.
+  destruct (auth_user_nodes_spans _ _ _ _ _ _ _ _ _ _ Hshape Eun) as [Hout2 Hoff2].
   destruct Hshape as [Ha [Hat [Hat0 [Hu [Hco [Hco0 _]]]]]].
-  (* the user nodes *)
-  assert (Huser : forall out2 offset2, auth_user_nodes username password = (out2, offset2) ->
-            Forall (auth_child a username password host) out2 /\ offset2 = blen userinfo).
-  { unfold auth_user_nodes. intros out2 offset2.
-    destruct (nonempty username) eqn:Nu; destruct (nonempty password) eqn:Np; intros H; injection H as <- <-.
-    - assert (Hc : has_colon = true). { destruct has_colon; [reflexivity|]. rewrite Hco0 in Np by reflexivity. discriminate. }
-      assert (Hta : has_at = true). { destruct has_at; [reflexivity|]. rewrite Hat0 in Hu by reflexivity. destruct username; discriminate. }
-      rewrite Hc in Hu. split; [|rewrite Hu, blen_app, blen_cons1; lia].
-      constructor; [|constructor; [|constructor]].
-      + apply ac_username; try reflexivity. cbn [n_st n_en].
-        apply (covers_app a [] username ([b_colon] ++ password ++ [b_at] ++ host ++ port_part)); cbn [n_st n_en]; try reflexivity.
-        rewrite Ha, Hta. unfold at_part. rewrite Hu. cbn [app]. rewrite <- !app_assoc. reflexivity.
-      + apply ac_password; try reflexivity.
-        apply (covers_app a (username ++ [b_colon]) password ([b_at] ++ host ++ port_part)); cbn [n_st n_en].
-        * rewrite Ha, Hta. unfold at_part. rewrite Hu. rewrite <- !app_assoc. reflexivity.
-        * rewrite blen_app. reflexivity.
-        * rewrite blen_app. change (blen [b_colon]) with 1. lia.
-    - apply (proj1 (nonempty_false _)) in Np. subst password.
-      assert (Hc : has_colon = false). { destruct has_colon; [|reflexivity]. exfalso. apply P2; [|reflexivity]. apply Hco. reflexivity. }
-      assert (Hta : has_at = true). { destruct has_at; [reflexivity|]. rewrite Hat0 in Hu by reflexivity. destruct username; discriminate. }
-      rewrite Hc in Hu. rewrite app_nil_r in Hu. split; [|rewrite Hu; reflexivity].
-      constructor; [|constructor].
-      apply ac_username; try reflexivity.
-      apply (covers_app a [] username ([b_at] ++ host ++ port_part)); cbn [n_st n_en]; try reflexivity.
-      rewrite Ha, Hta. unfold at_part. rewrite Hu. cbn [app]. rewrite <- !app_assoc. reflexivity.
-    - apply (proj1 (nonempty_false _)) in Nu. subst username.
-      assert (Hc : has_colon = true). { destruct has_colon; [reflexivity|]. rewrite Hco0 in Np by reflexivity. discriminate. }
-      assert (Hta : has_at = true). { destruct has_at; [reflexivity|]. rewrite Hat0 in Hu by reflexivity. rewrite Hc in Hu. discriminate. }
-      rewrite Hc in Hu. cbn [app] in Hu. split; [|rewrite Hu, blen_cons1; reflexivity].
-      constructor; [|constructor].
-      apply ac_password; try reflexivity.
-      apply (covers_app a [b_colon] password ([b_at] ++ host ++ port_part)); cbn [n_st n_en]; try reflexivity.
-      rewrite Ha, Hta. unfold at_part. rewrite Hu. cbn [app]. rewrite <- !app_assoc. reflexivity.
-    - apply (proj1 (nonempty_false _)) in Nu. apply (proj1 (nonempty_false _)) in Np. subst username password.
-      assert (Hc : has_colon = false). { destruct has_colon; [|reflexivity]. exfalso. apply P2; [|reflexivity]. apply Hco. reflexivity. }
-      rewrite Hc in Hu. cbn [app] in Hu. split; [constructor|rewrite Hu; reflexivity]. }
-  destruct (auth_user_nodes username password) as [out2 offset2] eqn:Eun.
-  destruct (Huser out2 offset2 eq_refl) as [Hout2 Hoff2].
   destruct (nonempty host) eqn:Nh; cbn [negb]; [|intros H; injection H as <-; exact Hout2].
-  rewrite P3.
-  set (offset := if nonempty userinfo then offset2 + 1 else offset2).
+  set (offset := if has_byte b_at a then offset2 + 1 else offset2).
   assert (Hoff : offset = blen (at_part has_at userinfo)).
   { subst offset. unfold at_part. destruct has_at.
-    - destruct (nonempty userinfo) eqn:Nui.
-      + rewrite blen_app. change (blen [b_at]) with 1. lia.
-      + exfalso. apply (proj1 (nonempty_false _)) in Nui. apply P1; [apply Hat; reflexivity|exact Nui].
-    - rewrite (Hat0 eq_refl) in *. cbn [nonempty]. rewrite Hoff2. reflexivity. }
-  destruct (auth_host_nodes tlds host offset) as [hn| |] eqn:Eh; cbn [bind]; try discriminate.
+    - assert (E : has_byte b_at a = true) by (apply has_byte_in; apply Hat; reflexivity).
+      rewrite E, blen_app. change (blen [b_at]) with 1. lia.
+    - assert (E : has_byte b_at a = false).
+      { destruct (has_byte b_at a) eqn:E; [|reflexivity]. apply has_byte_in in E. apply Hat in E. discriminate. }
+      rewrite E, Hoff2, (Hat0 eq_refl). reflexivity. }
+  set (host' := Percent.unquote_to_bytes host) in *.
+  destruct (auth_host_nodes tlds host' offset (blen host)) as [hn| |] eqn:Eh; cbn [bind]; try discriminate.
   intros H. injection H as <-. apply Forall_app. split; [exact Hout2|].
-  revert Eh. unfold auth_host_nodes. destruct (startswith host [b_lbr]) eqn:Es.
-  - destruct (endswith host [b_rbr]) eqn:Ee; cbn [negb]; [|discriminate].
-    destruct (bracketed_inner host Es Ee) as [inner [Hh Hin]]. rewrite Hin.
+  revert Eh. unfold auth_host_nodes. destruct (startswith host' [b_lbr]) eqn:Es.
+  - destruct (endswith host' [b_rbr]) eqn:Ee; cbn [negb]; [|discriminate].
+    destruct (bracketed_inner host' Es Ee) as [inner [Hh Hin]]. rewrite Hin.
     destruct (parse_ipv6 inner) as [n| e|] eqn:E6; cbn [bind catch_value_error].
     + intros H. injection H as <-. constructor; [|constructor].
       pose proof (parse_ipv6_node _ _ E6) as Hn. destruct n as [t v o s e k]. cbn [n_val n_obf] in Hn.
       injection Hn as -> -> -> ->. cbn [shift].
+      destruct (P6 inner Hh) as [rest Hrest].
       apply (ac_ipv6 _ _ _ _ _ inner); try reflexivity; [exact Hh| |exact E6].
-      apply (covers_app a (at_part has_at userinfo ++ [b_lbr]) inner ([b_rbr] ++ port_part)); cbn [n_st n_en].
-      * rewrite Ha, Hh. rewrite <- !app_assoc. reflexivity.
+      apply (covers_app a (at_part has_at userinfo ++ [b_lbr]) inner (rest ++ port_part)); cbn [n_st n_en].
+      * rewrite Ha, Hrest. rewrite <- !app_assoc. reflexivity.
       * rewrite blen_app. change (blen [b_lbr]) with 1. lia.
       * rewrite blen_app. change (blen [b_lbr]) with 1. lia.
     + destruct (is_value_error e); intros H; [injection H as <-; constructor|discriminate].
     + discriminate.
-  - destruct (parse_ip_node host) as [n| e|] eqn:E4; cbn [bind catch_value_error].
+  - destruct (parse_ip_node host') as [n| e|] eqn:E4; cbn [bind catch_value_error].
     + intros H. injection H as <-. constructor; [|constructor].
       destruct (parse_ip_node_inv _ _ E4) as [Ht [Hs [He [Hk Hp]]]].
-      destruct n as [t v o s e k]. cbn [n_ty n_st n_en n_kids n_val n_obf] in *. subst s e. cbn [shift].
+      destruct n as [t v o s e k]. cbn [n_ty n_st n_en n_kids n_val n_obf] in *. subst s e. cbn [shift set_end].
       apply ac_ip; [exact Ht| |exact Hp].
       apply (covers_app a (at_part has_at userinfo) host port_part); cbn [n_st n_en]; [exact Ha|lia|lia].
     + destruct (is_value_error e); intros H; [|discriminate]. injection H as <-.
-      destruct (is_domain tlds host) eqn:Ed; constructor; [|constructor].
+      destruct (is_domain tlds host') eqn:Ed; constructor; [|constructor].
       apply ac_domain; try reflexivity; [|exact Ed].
       apply (covers_app a (at_part has_at userinfo) host port_part); cbn [n_st n_en]; [exact Ha|lia|lia].
     + discriminate.
 Qed.
+
+(* no side condition at all when the host is not percent-escaped, or when its unquoted form is not bracketed *)
+Corollary parse_authority_spans_unescaped a userinfo username password host kids :
+  auth_split a = (userinfo, username, password, host) ->
+  Percent.unquote_to_bytes host = host ->
+  parse_authority tlds a = Ok kids ->
+  Forall (auth_child a username password host) kids.
+Proof. intros Hs E. apply (parse_authority_spans a userinfo); [exact Hs|apply v6_host_literal_unescaped; exact E]. Qed.
+
+Corollary parse_authority_spans_no_bracket a userinfo username password host kids :
+  auth_split a = (userinfo, username, password, host) ->
+  startswith (Percent.unquote_to_bytes host) [b_lbr] = false ->
+  parse_authority tlds a = Ok kids ->
+  Forall (auth_child a username password host) kids.
+Proof. intros Hs E. apply (parse_authority_spans a userinfo); [exact Hs|apply v6_host_literal_no_bracket; exact E]. Qed.
 End AuthoritySpans.
 
 (* --- parse_url --- *)
@@ -1021,13 +1043,13 @@ Example find_urls_ex4 : find_urls TLDS_EX (L"http://h.com/p?#frag") = Ok ([Node 
 Proof. vm_compute. reflexivity. Qed.
 Example find_urls_ex5 : find_urls TLDS_EX (L"ftp://[::0:1]/%7e") = Ok ([Node (L"network.url") (L"ftp://[::0:1]/~") (L"escape.percent") 0 17 [Node (L"network.url.scheme") (L"ftp") ([]) 0 3 []; Node (L"network.ipv6") (L"::1") (L"ip_obfuscation") 7 12 []; Node (L"network.url.path") (L"/~") ([]) 13 15 []]]).
 Proof. vm_compute. reflexivity. Qed.
-Example find_urls_ex6 : find_urls TLDS_EX (L"http://@example.com/") = Ok ([Node (L"network.url") (L"http://@example.com/") ([]) 0 20 [Node (L"network.url.scheme") (L"http") ([]) 0 4 []; Node (L"network.domain") (L"example.com") ([]) 7 18 []; Node (L"network.url.path") (L"/") ([]) 19 20 []]]).
+Example find_urls_ex6 : find_urls TLDS_EX (L"http://@example.com/") = Ok ([Node (L"network.url") (L"http://@example.com/") ([]) 0 20 [Node (L"network.url.scheme") (L"http") ([]) 0 4 []; Node (L"network.domain") (L"example.com") ([]) 8 19 []; Node (L"network.url.path") (L"/") ([]) 19 20 []]]).
 Proof. vm_compute. reflexivity. Qed.
-Example find_urls_ex7 : find_urls TLDS_EX (L"http://user:@example.com/x") = Ok ([Node (L"network.url") (L"http://user:@example.com/x") ([]) 0 26 [Node (L"network.url.scheme") (L"http") ([]) 0 4 []; Node (L"network.url.username") (L"user") ([]) 7 11 []; Node (L"network.domain") (L"example.com") ([]) 12 23 []; Node (L"network.url.path") (L"/x") ([]) 24 26 []]]).
+Example find_urls_ex7 : find_urls TLDS_EX (L"http://user:@example.com/x") = Ok ([Node (L"network.url") (L"http://user:@example.com/x") ([]) 0 26 [Node (L"network.url.scheme") (L"http") ([]) 0 4 []; Node (L"network.url.username") (L"user") ([]) 7 11 []; Node (L"network.domain") (L"example.com") ([]) 13 24 []; Node (L"network.url.path") (L"/x") ([]) 24 26 []]]).
 Proof. vm_compute. reflexivity. Qed.
-Example find_urls_ex8 : find_urls TLDS_EX (L"http://a%20b.com/x") = Ok ([Node (L"network.url") (L"http://a%20b.com/x") ([]) 0 18 [Node (L"network.url.scheme") (L"http") ([]) 0 4 []; Node (L"network.domain") (L"a b.com") ([]) 7 14 []; Node (L"network.url.path") (L"/x") ([]) 16 18 []]]).
+Example find_urls_ex8 : find_urls TLDS_EX (L"http://a%20b.com/x") = Ok ([Node (L"network.url") (L"http://a%20b.com/x") ([]) 0 18 [Node (L"network.url.scheme") (L"http") ([]) 0 4 []; Node (L"network.domain") (L"a b.com") ([]) 7 16 []; Node (L"network.url.path") (L"/x") ([]) 16 18 []]]).
 Proof. vm_compute. reflexivity. Qed.
-Example find_urls_ex9 : find_urls TLDS_EX (L"x http://[::1%2E]/ y") = Raise (L"ValueError").
+Example find_urls_ex9 : find_urls TLDS_EX (L"x http://[::1%2E]/ y") = Ok ([]).
 Proof. vm_compute. reflexivity. Qed.
 Example find_urls_ex10 : find_urls TLDS_EX (L"http://example.com:65536/ http://exa/ httpx://example.com") = Ok ([]).
 Proof. vm_compute. reflexivity. Qed.
@@ -1043,11 +1065,11 @@ Example parse_authority_ex3 : parse_authority TLDS_EX (L"%5B::FFFF:1.2.3.4%5D") 
 Proof. vm_compute. reflexivity. Qed.
 Example parse_authority_ex4 : parse_authority TLDS_EX (L"0x7f.1") = Ok ([Node (L"network.ip") (L"127.0.0.1") (L"ip_obfuscation") 0 6 []]).
 Proof. vm_compute. reflexivity. Qed.
-Example parse_authority_ex5 : parse_authority TLDS_EX (L"@example.com") = Ok ([Node (L"network.domain") (L"example.com") ([]) 0 11 []]).
+Example parse_authority_ex5 : parse_authority TLDS_EX (L"@example.com") = Ok ([Node (L"network.domain") (L"example.com") ([]) 1 12 []]).
 Proof. vm_compute. reflexivity. Qed.
-Example parse_authority_ex6 : parse_authority TLDS_EX (L"u:@example.com") = Ok ([Node (L"network.url.username") (L"u") ([]) 0 1 []; Node (L"network.domain") (L"example.com") ([]) 2 13 []]).
+Example parse_authority_ex6 : parse_authority TLDS_EX (L"u:@example.com") = Ok ([Node (L"network.url.username") (L"u") ([]) 0 1 []; Node (L"network.domain") (L"example.com") ([]) 3 14 []]).
 Proof. vm_compute. reflexivity. Qed.
-Example parse_authority_ex7 : parse_authority TLDS_EX (L"a%20b.com") = Ok ([Node (L"network.domain") (L"a b.com") ([]) 0 7 []]).
+Example parse_authority_ex7 : parse_authority TLDS_EX (L"a%20b.com") = Ok ([Node (L"network.domain") (L"a b.com") ([]) 0 9 []]).
 Proof. vm_compute. reflexivity. Qed.
 Example parse_url_ex0 : parse_url TLDS_EX (L"http:///path") = Ok ([Node (L"network.url.scheme") (L"http") ([]) 0 4 []; Node (L"network.url.path") (L"/path") ([]) 5 10 []]).
 Proof. vm_compute. reflexivity. Qed.
@@ -1088,13 +1110,15 @@ Proof. vm_compute. reflexivity. Qed.
 Example is_url_ex5 : is_url ([104;116;116;112;58;47;47;255;46;99;111;109]%N) = Ok (false).
 Proof. vm_compute. reflexivity. Qed.
 
-(* ---------- wrap-around of negative slice bounds near the start of the data (real behaviour) ---------- *)
-(* data[start - 1 :: -1] at start = 0 is the WHOLE data reversed: the text after the address suppresses it *)
-Example find_ips_wrap_0 : find_ips (L"1.2.3.4 <t>") = Ok ([]).
+(* ---------- matches near the start of the data (real behaviour) ---------- *)
+(* the prefix of an address found at offset 0 is data[:0], empty: the text AFTER the address no longer suppresses it *)
+Example find_ips_start0_0 : find_ips (L"1.2.3.4 <t>") = Ok ([Node (L"network.ip") (L"1.2.3.4") ([]) 0 7 []]).
 Proof. vm_compute. reflexivity. Qed.
-Example find_ips_wrap_1 : find_ips (L" 1.2.3.4 <t>") = Ok ([Node (L"network.ip") (L"1.2.3.4") ([]) 1 8 []]).
+Example find_ips_start0_1 : find_ips (L" 1.2.3.4 <t>") = Ok ([Node (L"network.ip") (L"1.2.3.4") ([]) 1 8 []]).
 Proof. vm_compute. reflexivity. Qed.
-Example find_ips_wrap_2 : find_ips (L"1.2.3.4 section ") = Ok ([]).
+Example find_ips_start0_2 : find_ips (L"1.2.3.4 section ") = Ok ([Node (L"network.ip") (L"1.2.3.4") ([]) 0 7 []]).
+Proof. vm_compute. reflexivity. Qed.
+Example find_ips_start0_3 : find_ips (L"<t>1.2.3.4") = Ok ([]).
 Proof. vm_compute. reflexivity. Qed.
 (* data[start - 10 : start] for start < 10 <= len(data) is empty, hence printable: no Pascal-string cut *)
 Example find_urls_wrap_0 : find_urls TLDS_EX ([0;22;104;116;116;112;58;47;47;101;120;97;109;112;108;101;46;99;111;109;47;97;98;99;48;120;121;122;32;97;110;100;32;109;111;114;101;32;116;101;120;116]%N) = Ok ([Node (L"network.url") (L"http://example.com/abc0xyz") ([]) 2 28 [Node (L"network.url.scheme") (L"http") ([]) 0 4 []; Node (L"network.domain") (L"example.com") ([]) 7 18 []; Node (L"network.url.path") (L"/abc0xyz") ([]) 18 26 []]]).
@@ -1102,24 +1126,49 @@ Proof. vm_compute. reflexivity. Qed.
 Example find_urls_wrap_1 : find_urls TLDS_EX ([48;49;50;51;52;53;54;55;56;57;0;22;104;116;116;112;58;47;47;101;120;97;109;112;108;101;46;99;111;109;47;97;98;99;48;120;121;122;32;97;110;100;32;109;111;114;101;32;116;101;120;116]%N) = Ok ([Node (L"network.url") (L"http://example.com/abc") ([]) 12 34 [Node (L"network.url.scheme") (L"http") ([]) 0 4 []; Node (L"network.domain") (L"example.com") ([]) 7 18 []; Node (L"network.url.path") (L"/abc") ([]) 18 22 []]]).
 Proof. vm_compute. reflexivity. Qed.
 
-(* ---------- the side conditions of the span theorems are necessary: the real code mis-places these spans ---------- *)
-(* an at sign with an empty userinfo: the host span starts one byte early *)
-Example authority_span_defect_1 : exists n,
-  parse_authority TLDS_EX (L"@example.com") = Ok [n] /\ n_val n = L"example.com" /\
-  slice (L"@example.com") (n_st n) (n_en n) = L"@example.co".
-Proof. eexists. split; [vm_compute; reflexivity|]. split; vm_compute; reflexivity. Qed.
+(* ---------- authority spans after the fixes: empty userinfo, empty password, escaped host ---------- *)
+Example parse_authority_ex8 : parse_authority TLDS_EX (L":@example.com") = Ok ([Node (L"network.domain") (L"example.com") ([]) 2 13 []]).
+Proof. vm_compute. reflexivity. Qed.
+Example parse_authority_ex9 : parse_authority TLDS_EX (L":p@a%20b.com:80") = Ok ([Node (L"network.url.password") (L"p") ([]) 1 2 []; Node (L"network.domain") (L"a b.com") ([]) 3 12 []]).
+Proof. vm_compute. reflexivity. Qed.
+Example parse_authority_ex10 : parse_authority TLDS_EX (L"@1%2E2.3.4") = Ok ([Node (L"network.ip") (L"1.2.3.4") ([]) 1 10 []]).
+Proof. vm_compute. reflexivity. Qed.
+Example parse_authority_ex11 : parse_authority TLDS_EX (L"u:@0x7f.1:8") = Ok ([Node (L"network.url.username") (L"u") ([]) 0 1 []; Node (L"network.ip") (L"127.0.0.1") (L"ip_obfuscation") 3 9 []]).
+Proof. vm_compute. reflexivity. Qed.
+Example parse_authority_ex12 : parse_authority TLDS_EX (L"[::1%5D") = Ok ([Node (L"network.ipv6") (L"::1") ([]) 1 4 []]).
+Proof. vm_compute. reflexivity. Qed.
+Example parse_authority_ex13 : parse_authority TLDS_EX (L"%5B::1%5D") = Ok ([Node (L"network.ipv6") (L"::1") ([]) 1 4 []]).
+Proof. vm_compute. reflexivity. Qed.
 
-(* a colon with an empty password: the host span starts one byte early *)
-Example authority_span_defect_2 : exists n1 n,
-  parse_authority TLDS_EX (L"u:@example.com") = Ok [n1; n] /\ n_val n = L"example.com" /\
-  slice (L"u:@example.com") (n_st n) (n_en n) = L"@example.co".
+(* the host span now selects the host as written *)
+Example authority_span_fixed : exists n1 n,
+  parse_authority TLDS_EX (L"u:@a%20b.com:80") = Ok [n1; n] /\ n_val n = L"a b.com" /\
+  slice (L"u:@a%20b.com:80") (n_st n) (n_en n) = L"a%20b.com".
 Proof. eexists. eexists. split; [vm_compute; reflexivity|]. split; vm_compute; reflexivity. Qed.
 
-(* a percent escape in the host: the span has the length of the decoded host *)
-Example authority_span_defect_3 : exists n,
-  parse_authority TLDS_EX (L"a%20b.com") = Ok [n] /\ n_val n = L"a b.com" /\
-  slice (L"a%20b.com") (n_st n) (n_en n) = L"a%20b.c".
-Proof. eexists. split; [vm_compute; reflexivity|]. split; vm_compute; reflexivity. Qed.
+(* ---------- the remaining side conditions of the span theorems are necessary ---------- *)
+(* a bracketed host whose opening bracket is escaped: the IPv6 span is placed as if the host were unquoted *)
+Example authority_span_defect_v6 : exists n,
+  parse_authority TLDS_EX (L"%5B::1%5D") = Ok [n] /\ n_val n = L"::1" /\
+  slice (L"%5B::1%5D") (n_st n) (n_en n) = L"5B:" /\ ~ v6_host_literal (L"%5B::1%5D").
+Proof.
+  eexists. split; [vm_compute; reflexivity|]. split; [vm_compute; reflexivity|]. split; [vm_compute; reflexivity|].
+  intros H. destruct (H (L"::1")) as [rest E]; [vm_compute; reflexivity|]. discriminate.
+Qed.
+
+(* an escaped closing bracket alone is harmless *)
+Example authority_span_v6_ok : exists n,
+  parse_authority TLDS_EX (L"[::1%5D") = Ok [n] /\ n_val n = L"::1" /\
+  slice (L"[::1%5D") (n_st n) (n_en n) = L"::1" /\ v6_host_literal (L"[::1%5D").
+Proof.
+  eexists. split; [vm_compute; reflexivity|]. split; [vm_compute; reflexivity|]. split; [vm_compute; reflexivity|].
+  intros inner H. exists (L"%5D").
+  assert (E : Percent.unquote_to_bytes (L"[::1%5D") = [91; 58; 58; 49; 93]%N) by (vm_compute; reflexivity).
+  rewrite E in H. unfold b_lbr, b_rbr in *.
+  destruct inner as [|x1 [|x2 [|x3 [|x4 r]]]]; cbn [app] in H; try discriminate.
+  - injection H; intros; subst. vm_compute. reflexivity.
+  - injection H; intros; destruct r; discriminate.
+Qed.
 
 (* two slashes with an empty authority: the path span starts two bytes early *)
 Example url_span_defect_empty_netloc : exists n1 n,
@@ -1127,13 +1176,14 @@ Example url_span_defect_empty_netloc : exists n1 n,
   slice (L"http:///path") (n_st n) (n_en n) = L"///pa".
 Proof. eexists. eexists. split; [vm_compute; reflexivity|]. split; [reflexivity|]. split; vm_compute; reflexivity. Qed.
 
-(* find_urls raises: is_url accepts the raw text (the bracketed host has the scope id 2E) but urlsplit
-   rejects the normalised value, in which the escape has become a dot *)
-Example find_urls_raises :
+(* the guard added to find_urls: is_url accepts the raw text (the bracketed host has the scope id 2E) but not the
+   normalised value, in which the escape has become a dot (urlsplit rejects it); the match is skipped *)
+Example find_urls_guard :
   is_url (L"http://[::1%2E]/") = Ok true /\
   fst (normalize_percent_encoding (L"http://[::1%2E]/")) = L"http://[::1.]/" /\
   urlsplit (L"http://[::1.]/") = Raise value_error /\
-  find_urls TLDS_EX (L"x http://[::1%2E]/ y") = Raise value_error.
+  is_url (L"http://[::1.]/") = Ok false /\
+  find_urls TLDS_EX (L"x http://[::1%2E]/ y") = Ok [].
 Proof. repeat split; vm_compute; reflexivity. Qed.
 
 Print Assumptions is_domain_spec.
@@ -1147,12 +1197,14 @@ Print Assumptions find_ips_post_no_raise.
 Print Assumptions is_url_total.
 Print Assumptions is_url_true.
 Print Assumptions find_urls_post_spec.
-Print Assumptions find_urls_post_raises.
+Print Assumptions find_urls_post_never_raises.
+Print Assumptions find_urls_post_no_raise.
 Print Assumptions find_urls_post_no_hang.
-Print Assumptions find_urls_post_total.
 Print Assumptions parse_authority_cases.
 Print Assumptions parse_url_ok_iff.
 Print Assumptions parse_url_raises.
 Print Assumptions parse_authority_spans.
+Print Assumptions parse_authority_spans_unescaped.
+Print Assumptions parse_authority_spans_no_bracket.
 Print Assumptions parse_url_spans.
 Print Assumptions parse_url_spans_clean.
